@@ -358,6 +358,9 @@ func (w *worker) sortCase(k kind, cfg sortCfg, in []row, d int, ch chunking, err
 
 	// No error was injected (or the ordinal was never reached): full oracle.
 	if err != nil {
+		if envErr(err) {
+			fatalf("environment error in SortReader (not a verdict): %v (case %+v)", err, desc(""))
+		}
 		w.violate(base+"spurious-error/"+class(), "SortReader failed although no input read failed: "+err.Error(), desc("creation err="+err.Error()))
 		w.outcome("sort/spurious-error")
 		return
@@ -373,6 +376,8 @@ func (w *worker) sortCase(k kind, cfg sortCfg, in []row, d int, ch chunking, err
 		w.violate(base+"bad-count/"+class(), res.badN, desc(got))
 	case res.stuck:
 		w.violate(base+"no-progress/"+class(), "1000 consecutive reads returned (0, nil)", desc(got))
+	case res.err != nil && envErr(res.err):
+		fatalf("environment error while reading a sorted stream (not a verdict): %v (case %+v)", res.err, desc(""))
 	case res.err != nil:
 		w.violate(base+"spurious-error/read/"+class(), "reading the sorted stream failed although no input read failed: "+res.err.Error(), desc(got+" then "+res.err.Error()))
 	case !res.decodeOK:
@@ -394,6 +399,14 @@ func (w *worker) sortCase(k kind, cfg sortCfg, in []row, d int, ch chunking, err
 		w.sample("sort-spilled", desc(got))
 	}
 	return
+}
+
+// envErr recognises failures of the sandbox (descriptor or space limits) that
+// must not be reported as verdicts about bigslice.
+func envErr(err error) bool {
+	m := err.Error()
+	return strings.Contains(m, "too many open files") || strings.Contains(m, "no space left") ||
+		strings.Contains(m, "cannot allocate memory") || strings.Contains(m, "quota exceeded")
 }
 
 func cmpWord(a, b int) string {
